@@ -336,6 +336,12 @@ void threshold_optimal
     threshold_direction direction = threshold_direction::regular
 )
 {
+    // an empty view has nothing to binarize (and no first pixel for nth_channel_view to address)
+    if (src_view.width() == 0 || src_view.height() == 0)
+    {
+        return;
+    }
+
     if (mode == threshold_optimal_value::otsu)
     {
         for (std::size_t i = 0; i < src_view.num_channels(); i++)
